@@ -34,6 +34,9 @@ var (
 	logLfsSearchArgs = []string{
 		"--no-ext-diff",
 		"--no-textconv",
+		"--text",          // pointers are text even where attributes say "-diff" or "binary"
+		"--src-prefix=a/", // the parser relies on the default prefixes, whatever
+		"--dst-prefix=b/", // diff.noprefix or diff.mnemonicPrefix say
 		"--color=never",
 		"-G", "oid sha256:", // only diffs which include an lfs file SHA change
 		"-p",                             // include diff so we can read the SHA
